@@ -210,6 +210,39 @@ def rule_r1_r2(ck, prog, cg, roles, batch=True):
                                  path=g.describe_path(g.path(ctx_entry, p, avoid=fl, avoid_edges=null_exporter_edge) or []))
                 else:
                     ck.holds('C02.R2', p.f, site + ':after-exporter-flush', p.n, 'exporter ForceFlush precedes the publication')
+        # ---- the ticket that is published is the one read *before* the snapshot (every inlined copy of the publication): a ticket read
+        # after the export covers flush requests that arrived while the exporter was busy - for records that are still queued
+        snap_pts = list(snaps) + (list(g.calls('CircularBuffer::size')) if batch else [])
+        seen_pub = set()
+        for (p, op) in pubs:
+            args = p.n.get('args', [])
+            desired = args[1] if op[1].startswith('compare_exchange') and len(args) > 1 else (args[0] if args else None)
+            if desired is None:
+                continue
+            late = None
+            for (sf, sn, sctx) in origins(g, rd, p.f, desired, p.ctx):
+                o = atomic_op(sn)
+                if not (o and o[0] == 'load' and path_str(access_path(sf, sn['obj'], sctx)) == roles.pending):
+                    continue
+                lp = g.point_of.get((id(sctx), sn['i']))
+                if lp is None:
+                    continue
+                # a path from the load to this publication that passes no snapshot of the queue: the load came after it
+                r = g.reachable_from([q for (q, _l) in lp.succ], avoid=snap_pts)
+                if p.id in r:
+                    late = lp
+                    break
+            key = (p.f.key, p.n['i'], late.n['i'] if late is not None else None)
+            if key in seen_pub:
+                continue
+            seen_pub.add(key)
+            if late is not None:
+                ck.violation('C02.R2', p.f, 'publish-notified:ticket-read-before-snapshot', late.n,
+                             'the ticket published here is (also) one read at line %s, after the queue snapshot of the cycle: flush requests that arrived while the exporter was busy are acknowledged although what they cover is still queued' % late.line,
+                             path=g.describe_path(g.path(late, p, avoid=snap_pts) or []))
+            elif (p.f.key, p.n['i'], 'ok') not in seen_pub:
+                seen_pub.add((p.f.key, p.n['i'], 'ok'))
+                ck.holds('C02.R2', p.f, 'publish-notified:ticket-read-before-snapshot', p.n, 'every ticket value that can be published was read before a queue snapshot on the way to the publication')
         if batch:
             # ---- R11: a ticket is only published when everything the snapshot saw has been exported. On the paths on which a
             # ticket is pending, either the count handed to Consume is the whole queue size, or the publication is behind an
@@ -766,7 +799,7 @@ def rule_r6_no_detach(ck, prog, roles, rule='C02.R6'):
 
 def run(ck, prog):
     ck.doc('C02.R1', 'worker cycle: pending flush ticket is loaded before every queue snapshot of the same iteration', 5)
-    ck.doc('C02.R2', 'publication of the notified counter: value from the ticket load; after Export; after exporter ForceFlush', 8)
+    ck.doc('C02.R2', 'publication of the notified counter: value from the ticket load read before the snapshot; after Export; after exporter ForceFlush', 10)
     ck.doc('C02.R3', 'every return of the public flush entry is false or notified >= own ticket', 5)
     ck.doc('C02.R4', 'every flush layer: a false child result forces a false return on every feasible path', 12)
     ck.doc('C02.R5', 'exporter/child Shutdown guarded by the first-caller outcome of an atomic read-modify-write', 5)
